@@ -107,24 +107,40 @@ def Rb.reclaim (r : Rb) : Rb × Bool :=
     let r2 := r1.setMagic r.rp DEAD
     ({ r2 with rp := new }, true)
 
-/-- the overwrite loop of `qb_rb_chunk_alloc` (fuel = W bounds the number of reclaims) -/
-def Rb.makeRoom (r : Rb) (len : Nat) : Nat → Option Rb
-  | 0 => if r.spaceFree < len + MARGIN then none else some r
+/-- `rb->notifier.timedwait_fn(rb->notifier.instance, 0)` with the result ignored: takes one
+    notification back if there is one (`sem_trywait`); nothing without a semaphore -/
+def Rb.unpost (r : Rb) : Rb := { r with sem := r.sem.map (· - 1) }
+
+/-- the overwrite loop of `qb_rb_chunk_alloc`: the state when the loop is left (the reclaims
+    persist also when the allocation fails) and whether room was found.  `fuel` bounds the
+    number of iterations (never exhausted on a well-formed ring, see `Lemmas/RingOw.lean`).
+    `takeBack = true` is the code as it is now (the notification of every chunk dropped by the
+    loop is taken back); `false` is the code before the repair of defect D31, kept for the
+    refutation witness `ow_sem_overcount_witness`. -/
+def Rb.makeRoomGen (takeBack : Bool) (r : Rb) (len : Nat) : Nat → Rb × Bool
+  | 0 => (r, !decide (r.spaceFree < len + MARGIN))
   | fuel+1 =>
     if r.spaceFree < len + MARGIN then
       match r.reclaim with
-      | (_, false) => none
-      | (r', true) => r'.makeRoom len fuel
-    else some r
+      | (_, false) => (r, false)
+      | (r', true) => Rb.makeRoomGen takeBack (if takeBack then r'.unpost else r') len fuel
+    else (r, true)
 
-/-- `qb_rb_chunk_alloc` -/
-def Rb.alloc (r : Rb) (len : Nat) : Except Err Rb :=
+def Rb.makeRoom (r : Rb) (len : Nat) (fuel : Nat) : Rb × Bool := r.makeRoomGen true len fuel
+
+/-- the end of `qb_rb_chunk_alloc`: "insert the chunk header" at `write_pt` -/
+def Rb.allocHdr (r : Rb) : Rb := (({ r with mem := wr32 r.mem r.wp 0 }) : Rb).setMagic r.wp ALLOC
+
+/-- `qb_rb_chunk_alloc`: the state afterwards and the `errno` if it returned NULL -/
+def Rb.allocGen (takeBack : Bool) (r : Rb) (len : Nat) : Rb × Option Err :=
   if r.ow then
-    match r.makeRoom len r.W with
-    | none => .error .einval
-    | some r' => .ok ((({ r' with mem := wr32 r'.mem r'.wp 0 }) : Rb).setMagic r'.wp ALLOC)
-  else if r.spaceFree < len + MARGIN then .error .eagain
-  else .ok ((({ r with mem := wr32 r.mem r.wp 0 }) : Rb).setMagic r.wp ALLOC)
+    match r.makeRoomGen takeBack len r.W with
+    | (r', false) => (r', some .einval)
+    | (r', true) => (r'.allocHdr, none)
+  else if r.spaceFree < len + MARGIN then (r, some .eagain)
+  else (r.allocHdr, none)
+
+def Rb.alloc (r : Rb) (len : Nat) : Rb × Option Err := r.allocGen true len
 
 /-- byte address (in `mem`) of payload byte `j` of the chunk whose header is at word `p`:
     `(char*)QB_RB_CHUNK_DATA_GET(rb, p) + j` through the circular double mapping. -/
@@ -156,11 +172,14 @@ def Rb.commitGen (clearNext : Bool) (r : Rb) (len : Nat) : Rb :=
 
 def Rb.commit (r : Rb) (len : Nat) : Rb := r.commitGen true len
 
-/-- `qb_rb_chunk_write` -/
-def Rb.write (r : Rb) (data : List Nat) : Rb × Except Err Nat :=
-  match r.alloc data.length with
-  | .error e => (r, .error e)
-  | .ok r1 => ((r1.fill data).commit data.length, .ok data.length)
+/-- `qb_rb_chunk_write` (`clearNext`, `takeBack`: see `commitGen`, `makeRoomGen`) -/
+def Rb.writeGen (clearNext takeBack : Bool) (r : Rb) (data : List Nat) : Rb × Except Err Nat :=
+  match r.allocGen takeBack data.length with
+  | (r', some e) => (r', .error e)
+  | (r1, none) => ((r1.fill data).commitGen clearNext data.length, .ok data.length)
+
+/-- `qb_rb_chunk_write` as it is now -/
+def Rb.write (r : Rb) (data : List Nat) : Rb × Except Err Nat := r.writeGen true true data
 
 /-- the `timedwait_fn(…, 0)` prologue shared by peek and read: `none` = timed out -/
 def Rb.tryWait (r : Rb) : Option Rb :=
@@ -236,5 +255,47 @@ def Rb.run (r : Rb) : List Op → Rb × List Out
     let (r1, o) := r.step op
     let (r2, os) := r1.run ops
     (r2, o :: os)
+
+/-! ### Two-phase writes: `qb_rb_chunk_alloc(n)`, fill, `qb_rb_chunk_commit(len)` with `len ≤ n`
+
+The harness keeps the pointer returned by the last successful `qb_rb_chunk_alloc` and the length
+asked for (`pend`); `commit` copies its data through that pointer and commits the data's length
+(the blackbox logger's pattern: reserve the maximum, commit what was used).  Ill-formed uses — a
+second `alloc` or a `write` while an allocation is pending, a `commit` without one or with more
+data than was allocated — are not executed (result `none`, "bad-op" on the wire). -/
+
+inductive POp where
+  | base (op : Op)
+  | alloc (n : Nat)
+  | commit (data : List Nat)
+  deriving Repr
+
+structure RbP where
+  rb : Rb
+  /-- length passed to the pending `qb_rb_chunk_alloc`, if any -/
+  pend : Option Nat
+  deriving Repr
+
+def RbP.step (s : RbP) : POp → Option (RbP × Out)
+  | .base (.write d) =>
+    if s.pend.isSome then none
+    else some (⟨(s.rb.step (.write d)).1, none⟩, (s.rb.step (.write d)).2)
+  | .base op => some (⟨(s.rb.step op).1, s.pend⟩, (s.rb.step op).2)
+  | .alloc n =>
+    if s.pend.isSome then none
+    else match s.rb.alloc n with
+      | (r', some e) => some (⟨r', none⟩, .err e)
+      | (r1, none) => some (⟨r1, some n⟩, .unit)
+  | .commit d =>
+    match s.pend with
+    | some n => if d.length ≤ n then some (⟨(s.rb.fill d).commit d.length, none⟩, .num 0) else none
+    | none => none
+
+def RbP.run (s : RbP) : List POp → RbP × List (Option Out)
+  | [] => (s, [])
+  | op :: ops =>
+    match s.step op with
+    | none => let (s2, os) := s.run ops; (s2, none :: os)
+    | some (s1, o) => let (s2, os) := s1.run ops; (s2, some o :: os)
 
 end QbVerif.Ring
